@@ -189,8 +189,12 @@ TEXTS = {
                 "the path path_to_ancestor chose from it to the root; every retained term lies on a SHORTEST chain of parent links from some "
                 "leaf to the root (via the path_to_ancestor theorems of C11); the call is refused with NotImplemented exactly because some "
                 "leaf has no path to the root; and about the executable statement — a term accepted by the retained-term test lies on a "
-                "shortest leaf-root chain, a result passing closure_ok is again an exact transitive closure. PARTIAL: induced links and the "
-                "annotation filter of the transcription have no theorem; spec_C14 states retained set, induced links, copied names/flags, "
+                "shortest leaf-root chain, a result passing closure_ok is again an exact transitive closure. STRUCTURE (C14_model_structure): "
+                "for every source ontology with exact caches (every Builder-built one), every root and leaves, a successful call returns an "
+                "ontology that again has unique ids, resolving links, sorted groups and EXACT ancestor caches, whose terms are exactly the "
+                "retained ids, and whose links are exactly the INDUCED ones (c -> p iff both retained and c -> p in the source); "
+                "add_parent_unchecked on two present terms is add_parent. PARTIAL: the "
+                "annotation filter of the transcription has no theorem; spec_C14 states retained set, induced links, copied names/flags, "
                 "preserved distances, refusal iff a leaf is outside the subtree, the annotation filter, and re-runs the executable statements "
                 "of C01-C03 on the result, evaluated on the crate's observation; the transcription is diffed against the crate.",
         "design_ref": "DESIGN.md §4 C14, §9", "note": NOTE_COMMON, "technique": TECH,
